@@ -103,7 +103,9 @@ Section QRun.
   Let nq := q_nq c.
 
   Lemma qcase_nq : 0 <= nq.
-  Proof. unfold qcase_ok in Hok. rewrite andb_true_iff, Z.leb_le in Hok. apply Hok. Qed.
+  Proof. unfold qcase_ok in Hok. rewrite !andb_true_iff, Z.leb_le in Hok. apply Hok. Qed.
+  Lemma qcase_first : q_first c = true.
+  Proof. unfold qcase_ok in Hok. rewrite !andb_true_iff in Hok. apply Hok. Qed.
 
   Lemma qsnap_good st life live :
     Inv no_topo st ->
@@ -154,9 +156,9 @@ Section QRun.
 
   Lemma qstep_ok l :
     QLive ds l -> (forall u, ql_life l u <> 4) ->
-    qstep_code c (ql_life l) (qsnapshot nq ds (ql_st l), qsnapshot nq ds (qreplay ds (ql_life l) (q_script c))) = 0.
+    qstep_code c (ql_life l) (qsnapshot nq ds (ql_st l), qsnapshot nq ds (qreplay_of c (ql_life l))) = 0.
   Proof.
-    intros [HI HL] H4. unfold qstep_code. cbn [fst snd]. fold nq ds.
+    intros [HI HL] H4. unfold qreplay_of. rewrite qcase_first. fold ds. unfold qstep_code. cbn [fst snd]. fold nq ds.
     rewrite (qsnap_good _ _ true HI (qlisted_valid _ _ _ HL)). cbn [Z.eqb negb].
     destruct (qreplay_good nq ds (qcase_descs c Hok) (ql_life l) (q_script c)) as [HIr HLr].
     rewrite (qsnap_good _ _ false HIr HLr). cbn [Z.eqb negb].
